@@ -485,8 +485,8 @@ impl E2Run for Sock {
 
     fn budget(&self, tier: &Tier) -> (u64, u64) {
         match tier {
-            Tier::Quick => (3_000, 90),
-            Tier::Thorough => (500_000, 3000),
+            Tier::Quick => (40_000, 50),
+            Tier::Thorough => (3_000_000, 3000),
         }
     }
 
